@@ -30,7 +30,7 @@ fn gen_cases(rng: &mut Rng, tier: Tier) -> Vec<Value> {
             cfg.metric = true;
             cfg.jobs = (4, 10);
             let sp = gen_problem(rng, &cfg);
-            json!({"k": "quota", "sp": sp, "max_gens": [1, 2, 3, 10][i % 4], "limit": limit})
+            { let mg = [1usize, 2, 3, 10][i % 4]; json!({"k": "quota", "sp": sp, "max_gens": mg, "limit": limit}) }
         })
         .collect()
 }
